@@ -251,6 +251,11 @@ def parse_rvalue(s):
         ops = []
         if rest.startswith("("):
             ops = [parse_operand(x) for x in split_top(rest[1:-1])]
+        elif rest.startswith("{") and rest.endswith("}"):
+            for part in split_top(rest[1:-1].strip()):
+                fm = re.match(r"^(\w+): (.*)$", part.strip(), re.S)
+                if fm:
+                    ops.append(parse_operand(fm.group(2)))
         return ("closure", s[:k + 1], ops)
     # unit variant / unit struct path
     if re.fullmatch(r"[\w:<>, '&\[\];\(\)\*]+", s):
